@@ -115,6 +115,14 @@ def mk_varint_pack(prop):
                 LE_append(ctx, SBytes(head), SInt(t.arg(t.num_args() - 1).arg(0)))
                 LE(ctx, SBytes(head))
             top = SInt(rev.t[n.t - 1])
+            if L._phase == 'assume':
+                st['pre'] = (sym.as_int_term(L.big), P.t)
+            elif L._phase == 'step' and 'pre' in st:
+                # checked lemma (its own obligation, proved in the empty context): one base-256 digit split off `big`,
+                # multiplied through by 256**k.  The step obligations need exactly this product identity, and z3 finds it
+                # in isolation every time but inside the full step query only for some seeds.
+                b, Pk = st['pre']
+                ctx.lemma('lemma/digit-split-times-power', Pk * b == 256 * Pk * (b / 256) + Pk * (b % 256))
             return [('big-nonneg', L.big >= 0),
                     ('value-split', B0 == L.big * P + le),
                     ('digits-below-power', le < P),
